@@ -1,7 +1,7 @@
 #!/bin/sh
 # usage: tools/runall.sh [scale] [props...]   -- runs the quick checks one after another, prints exit code and time
 SCALE=${1:-1}; shift
-PROPS=${@:-$(ls props | grep '^c[0-9]' | sed 's/.py//' | tr a-z A-Z)}
+PROPS=${@:-$(ls props | grep '^c[0-9][0-9].py$' | sed 's/.py//' | tr a-z A-Z)}
 for p in $PROPS; do
   s=$(date +%s)
   /venv/bin/python run.py $p --scale $SCALE > /tmp/runall.$p.out 2> /tmp/runall.$p.err; rc=$?
